@@ -228,7 +228,9 @@ def _generator_branch(e, observed, order):
                 G = _dense(G_op.sparse_matrix(wire_order=aw)) if isinstance(G_op, qp.SparseHamiltonian) else np.asarray(
                     qp.matrix(G_op, wire_order=aw), dtype=complex)
                 C = sla.expm(1j * complex(np.asarray(c.data[0])) * G)
-                if opalg.is_other_branch(C, A, z, sim.embed(P, pw, aw)):
+                # 1e-5: some generators are stored in single precision (DoubleExcitationMinus/Plus: complex64), so z * G and hence
+                # C^q carry ~1e-7 rounding; the comparison clause itself tolerates 1e-6 for fractional powers
+                if opalg.is_other_branch(C, A, z, sim.embed(P, pw, aw), tol=1e-5):
                     opts.append(C)
         except Exception:  # noqa: BLE001  (classification only: no candidate)
             pass
